@@ -87,6 +87,9 @@ CONSTRUCTS = [
     "{n} = lambda *a, **k: (a, k)\n{n}.__doc__ = 'x'\n",
     "class {N}(namedtuple('{N}', 'a b')):\n    pass\n{N}2 = Enum('{N}2', 'A B')\nclass {N}3(enum.IntFlag):\n    A = auto()\n    B = A | 2\n",
     "class {N}(TypedDict, total=False):\n    a: Required[int]\n    'doc of a'\nclass {N}2(Protocol[T]):\n    def m(self) -> T: ...\n",
+    "{n} = lambda text: int(text)  # type: (str) -> int\n{n}2 = {{}}  # type: Dict[str,\n{n}3 = []  # type: List[int]\n{n}4 = 1  # type: ignore\n",
+    "{n} = None  # type: 'Optional[int'\n{n}2 = 0  # type: int # trailing\nclass {N}:\n    a = []  # type: )(\n    def m(self):\n        self.b = 1  # type: a b c\n",
+    "def {n}(a,  # type: int\n       b   # type: str\n       ):\n    # type: (...) -> bool\n    pass\n",
     # shapes that used to abort the run (fixed; kept so that a regression is seen)
     "__docformat__ = '_types'\n",
     "__docformat__ = 'nosuchformat'\n",
